@@ -13,7 +13,7 @@ I-SIGNAL-TRIGGERING.
 Lexical choices: xml.*; denom (1,2,4,5,8,10,100,1000); identity ('linear' | 'identical' | 'omit': how factor 1/offset 0 without table is
 written); compuref / constrref / unitref ('isignal' | 'syssignal', unitref also 'compu'); constr ('internal' | 'phys' | 'omit' when the
 limits span the raw range); defaults ('omit' | 'explicit': CAN-ADDRESSING-MODE STANDARD, INTERVAL-TYPE CLOSED); num.scale (V),
-num.limit (DATA-CONSTR limits), num.tt (text table limits); bool1 (BOOLEAN encoding for 1-bit unsigned); lang (L attribute of L-2:
+num.limit (DATA-CONSTR limits), num.tt (text table limits; also 'hex'); bool1 (BOOLEAN encoding for 1-bit unsigned); lang (L attribute of L-2:
 EN | FOR-ALL | DE); order.packages, order.elements; btname ('typed' | 'neutral'); idhex (IDENTIFIER as 0x..)
 """
 import random
@@ -43,7 +43,7 @@ def random_lex(rng):
     maybe("defaults", ["omit"])
     maybe("num.scale", ["expE", "expe", "plus", "tz"], 0.5)
     maybe("num.limit", ["expE", "expe", "plus", "tz"], 0.5)
-    maybe("num.tt", ["expE", "plus", "tz"], 0.3)
+    maybe("num.tt", ["expE", "plus", "tz", "hex"], 0.35)
     maybe("bool1", [True])
     maybe("lang", ["FOR-ALL", "DE"])
     maybe("order.packages", ["rev", "shuf"])
@@ -144,9 +144,11 @@ def render(desc, lex=None, encoding="utf-8"):
                 if unit and lx["unitref"] == "compu":
                     cm.add(ref("UNIT-REF", "UNIT", unit))
                 scales = []
+                def tt(k):      # AUTOSAR numerical values may be written 0x1F as well
+                    return ("0x%X" % k) if (lx["num.tt"] == "hex" and k >= 0) else render_number(k, "plain" if lx["num.tt"] == "hex" else lx["num.tt"])
                 for k, lab in sorted(sg["values"].items()):
-                    scales.append(E("COMPU-SCALE", children=[E("LOWER-LIMIT", interval, text=render_number(k, lx["num.tt"])),
-                                                             E("UPPER-LIMIT", interval, text=render_number(k, lx["num.tt"])),
+                    scales.append(E("COMPU-SCALE", children=[E("LOWER-LIMIT", interval, text=tt(k)),
+                                                             E("UPPER-LIMIT", interval, text=tt(k)),
                                                              E("COMPU-CONST", children=[E("VT", text=lab)])]))
                 d = D(lx["denom"])
                 scales.append(E("COMPU-SCALE", children=[E("COMPU-RATIONAL-COEFFS", children=[
